@@ -69,6 +69,54 @@ def ob_state(ob):
     }
 
 
+# How a call is spelled: "mixed" = as in the documentation's examples (optional arguments by name),
+# "kw" = every argument by its documented name, "pos" = every argument by position with trailing
+# optional arguments left out when they are None (so the declared defaults are what is used).
+STYLE = ["mixed"]
+
+
+def place_styled(obj, c):
+    a, b, t, p = arg(c[1]), arg(c[2]), arg(c[3]), arg(c[4])
+    if STYLE[0] == "kw":
+        return obj.place_order(bid=a, vol=b, trader_id=t, price=p)
+    if STYLE[0] == "pos":
+        return obj.place_order(a, b, t) if p is None else obj.place_order(a, b, t, p)
+    return obj.place_order(a, b, t, price=p)
+
+
+def modify_styled(obj, c):
+    i, p, v = arg(c[1]), arg(c[2]), arg(c[3])
+    if STYLE[0] == "kw":
+        return obj.modify_order(order_id=i, new_price=p, new_vol=v)
+    if STYLE[0] == "pos":
+        if v is None and p is None:
+            return obj.modify_order(i)
+        return obj.modify_order(i, p) if v is None else obj.modify_order(i, p, v)
+    return obj.modify_order(i, new_price=p, new_vol=v)
+
+
+def cancel_styled(obj, c):
+    return obj.cancel_order(order_id=arg(c[1])) if STYLE[0] == "kw" else obj.cancel_order(arg(c[1]))
+
+
+def new_ob(tr):
+    trading = tr.get("trading", True)
+    if STYLE[0] == "kw":
+        return core.OrderBook(start_time=0, tick_size=tr["tick"], trading=trading)
+    if STYLE[0] == "pos":
+        return core.OrderBook(0, tr["tick"]) if trading else core.OrderBook(0, tr["tick"], False)
+    return core.OrderBook(0, tr["tick"]) if trading else core.OrderBook(0, tr["tick"], trading=False)
+
+
+def new_env(tr):
+    trading = tr.get("trading", True)
+    if STYLE[0] == "kw":
+        return core.StepEnv(seed=tr["seed"], start_time=tr.get("start", 0), tick_size=tr["tick"], step_size=tr["step_size"], trading=trading)
+    if STYLE[0] == "pos" or not trading:
+        return core.StepEnv(tr["seed"], tr.get("start", 0), tr["tick"], tr["step_size"]) if trading else core.StepEnv(tr["seed"], tr.get("start", 0), tr["tick"], tr["step_size"], False)
+    return core.StepEnv(tr["seed"], tr.get("start", 0), tr["tick"], tr["step_size"])
+
+
 def ob_call(ob, clock, k, c):
     """returns (ret, exception name)"""
     clock[0] = max(clock[0], k + 1)
@@ -76,11 +124,11 @@ def ob_call(ob, clock, k, c):
     m = c[0]
     try:
         if m == "place":
-            return ob.place_order(arg(c[1]), arg(c[2]), arg(c[3]), price=arg(c[4])), None
+            return place_styled(ob, c), None
         if m == "cancel":
-            return ob.cancel_order(arg(c[1])), None
+            return cancel_styled(ob, c), None
         if m == "modify":
-            return ob.modify_order(arg(c[1]), new_price=arg(c[2]), new_vol=arg(c[3])), None
+            return modify_styled(ob, c), None
         if m == "enable":
             return ob.enable_trading(), None
         if m == "disable":
@@ -96,7 +144,7 @@ def ob_call(ob, clock, k, c):
 
 
 def run_ob(tr):
-    ob = core.OrderBook(0, tr["tick"]) if tr.get("trading", True) else core.OrderBook(0, tr["tick"], trading=False)
+    ob = new_ob(tr)
     clock = [0]
     calls = tr["calls"]
     before = None
@@ -116,7 +164,7 @@ def run_ob(tr):
         fail("python/orderbook/failed-call-changed-object/%s" % exc, "call %r raised %s but changed the book" % (calls[-1], exc), tr)
     # looking must not change anything: the same calls on a second object WITHOUT any getter in
     # between (a binding that fills a cache when read, or refreshes lazily) end in the same state
-    ob_c = core.OrderBook(0, tr["tick"]) if tr.get("trading", True) else core.OrderBook(0, tr["tick"], trading=False)
+    ob_c = new_ob(tr)
     clock_c = [0]
     for k, c in enumerate(calls):
         ob_call(ob_c, clock_c, k, c)
@@ -124,6 +172,26 @@ def run_ob(tr):
     if st_c != st:
         key = [k for k in st if st[k] != st_c[k]][0]
         fail("python/orderbook/observation-changes-behaviour/%s" % key, "calls %r: with every getter read between the calls %s = %r, without any read in between %r" % (calls, key, st[key], st_c[key]), tr)
+    # how a call is spelled must not matter: every argument by its documented name / every argument by
+    # position with the optional ones left out when None (the declared defaults)
+    for style in ("kw", "pos"):
+        STYLE[0] = style
+        try:
+            ob_s = new_ob(tr)
+            clock_s = [0]
+            exc_s = None
+            for k, c in enumerate(calls):
+                _, exc_s = ob_call(ob_s, clock_s, k, c)
+            st_s = ob_state(ob_s)
+        except TypeError as e:
+            STYLE[0] = "mixed"
+            fail("python/orderbook/calling-convention/%s/TypeError" % style, "calls %r spelled %s: %s" % (calls, style, e), tr)
+            continue
+        STYLE[0] = "mixed"
+        count("ob_styled_replays")
+        if exc_s != exc or st_s != st_c:
+            key = ([k for k in st_c if st_c[k] != st_s[k]] + ["exception"])[0]
+            fail("python/orderbook/calling-convention/%s/%s" % (style, key), "calls %r spelled %s end with %s = %r (exception %r), spelled as in the docs %r (exception %r)" % (calls, style, key, st_s.get(key), exc_s, st_c.get(key), exc), tr)
     # ... and with exactly ONE look, before call j, for every j (what a cache refreshed by every
     # look and untouched without any look would hide)
     if not tr.get("bulk"):
@@ -219,11 +287,11 @@ def env_call(env, c):
     m = c[0]
     try:
         if m == "place":
-            return env.place_order(arg(c[1]), arg(c[2]), arg(c[3]), price=arg(c[4])), None
+            return place_styled(env, c), None
         if m == "cancel":
-            return env.cancel_order(arg(c[1])), None
+            return cancel_styled(env, c), None
         if m == "modify":
-            return env.modify_order(arg(c[1]), new_price=arg(c[2]), new_vol=arg(c[3])), None
+            return modify_styled(env, c), None
         if m == "step":
             return env.step(), None
         if m == "enable":
@@ -236,7 +304,7 @@ def env_call(env, c):
 
 
 def replay_env(tr, observe=True, only_before=None):
-    env = core.StepEnv(tr["seed"], tr.get("start", 0), tr["tick"], tr["step_size"]) if tr.get("trading", True) else core.StepEnv(tr["seed"], tr.get("start", 0), tr["tick"], tr["step_size"], False)
+    env = new_env(tr)
     calls = tr["calls"]
     before = None
     ret = exc = None
@@ -281,6 +349,20 @@ def run_env_c18(tr):
     if st3 != st:
         key = [k for k in st if st[k] != st3[k]][0]
         fail("python/stepenv/observation-changes-behaviour/%s" % key, "calls %r: with every getter read between the calls %s = %r, without any read in between %r" % (calls, key, st[key], st3[key]), tr)
+    for style in ("kw", "pos"):
+        STYLE[0] = style
+        try:
+            env_s, _, exc_s, _ = replay_env(tr, observe=False)
+            st_s = env_state(env_s)
+        except TypeError as e:
+            STYLE[0] = "mixed"
+            fail("python/stepenv/calling-convention/%s/TypeError" % style, "calls %r spelled %s: %s" % (calls, style, e), tr)
+            continue
+        STYLE[0] = "mixed"
+        count("env_styled_replays")
+        if exc_s != exc or st_s != st3:
+            key = ([k for k in st3 if st3[k] != st_s[k]] + ["exception"])[0]
+            fail("python/stepenv/calling-convention/%s/%s" % (style, key), "calls %r spelled %s end with %s = %r (exception %r), spelled as in the docs %r (exception %r)" % (calls, style, key, st_s.get(key), exc_s, st3.get(key), exc), tr)
     # ... and a replay with exactly one look, before call j, for every j
     if not tr.get("bulk"):
         for j in range(1, len(calls)):
